@@ -83,3 +83,26 @@ Proof. vm_compute. repeat split; try reflexivity. lia. Qed.
 (* non-vacuity / round trip on the witness file *)
 Lemma task_txt_roundtrip_example : read_task_txt true (text_of w_lines) = (w_entries, true).
 Proof. vm_compute. reflexivity. Qed.
+
+(* ------------------------------------------------------------------ any reader that stops at an unterminated line *)
+(* (the task list reader and, since afd718d, the .dbg loader utils/dwarf.c load_debug_file are of this kind; the
+   per-line parser is arbitrary) *)
+Lemma run_lines_stop {E} (parse : bytes -> step E) : forall xs p, parse p = SStop ->
+  run_lines parse (xs ++ [p]) = run_lines parse xs.
+Proof.
+  induction xs as [|x xs IH]; intros p Hp.
+  - cbn [app run_lines]. rewrite Hp. reflexivity.
+  - cbn [app run_lines]. rewrite IH by exact Hp. reflexivity.
+Qed.
+
+Lemma stop_reader_prefix {E} (parse : bytes -> step E) ls n :
+  (forall p, has_nl p = false -> parse p = SStop) -> forallb no_nl ls = true ->
+  run_text parse (firstn n (text_of ls)) = run_text parse (text_of (fst (cut_lines ls n))).
+Proof.
+  intros Hstop H. unfold run_text. rewrite getlines_prefix by exact H. unfold expected_lines.
+  destruct (cut_lines_no_nl ls n H) as [Hc Hp].
+  destruct (cut_lines ls n) as [c p]. cbn [fst snd] in *.
+  rewrite getlines_text by exact Hc.
+  destruct p as [|b p]; [now rewrite app_nil_r|].
+  apply run_lines_stop. apply Hstop. rewrite has_nl_no_nl, Hp. reflexivity.
+Qed.
